@@ -276,7 +276,7 @@ func c04Online(t *vk.T, pos, n int) {
 	fx.SetPrimeOffset(uint64(r.Intn(1000)))
 	ids := fx.IDs(r, r.Intn(3), n)
 	cm := fx.NewCMPMatDealt(ids, n-2)
-	msg := r.Bytes(32)
+	msg := r.Bytes([]int{32, 64, 48}[pos%3]) // digests longer than 32 bytes are reduced differently by a careless scalar conversion
 	C := ids[pos]
 	_, outs, err := fx.RunMulti(r, ids, func(id party.ID) protocol.StartFunc { return cmp.Presign(cm.Cfgs[id], ids, nil) }, fx.Opt{})
 	if err != nil || !fx.AllDone(outs) {
